@@ -59,7 +59,7 @@ def check(chk):
                         a = src(c.args[1])
                         chk.ob("PAIR-5", "end_eject reports whether the ball left (%s)" % a, a in ("result", "True", "False"), f.where(c),
                                construct=f.ident, text="end_eject outcome " + a)
-    chk.expect(n_tr >= 2, "C05: start_eject sites lost (%d)" % n_tr)
+    chk.need(n_tr >= 2, "PAIR-5", "ejects are started through ball_count_handler.start_eject", repo.func(OB, "OutgoingBallsHandler._eject_ball"), "found %d site(s)" % n_tr)
     f = repo.func(OB, OH + "._eject_ball")
     cfg = f.cfg()
     hs = [h for h in ast.walk(f.node) if isinstance(h, ast.ExceptHandler) and h.type is not None and "CancelledError" in src(h.type)]
@@ -176,7 +176,7 @@ def check(chk):
     ok = bool(cmpx) and src(cmpx[0]).replace(" ", "") == "eject_try>=eject_request.max_tries"
     chk.ob("DOM-11", "max_tries attempts are made (eject_try >= max_tries)", ok, f.where(), detail=src(cmpx[0]) if cmpx else "", construct=f.ident,
            text="max tries compare")
-    chk.floor("DOM-11", 4)
+    chk.floor("DOM-11", 3)
 
     # ------------------------------------------------------------- DOM-12
     f = repo.func(BD, "BallDevice._setup_or_queue_eject_to_target")
